@@ -2,6 +2,7 @@ import TD.C18.Stream
 import TD.C18.Rle
 import TD.C18.RleDoc
 import TD.C18.Tree
+import TD.C18.RleFloat
 
 /-!
 # C18 — generated XML/XHTML/SVG is well-formed and carries the data unchanged
@@ -215,6 +216,27 @@ theorem rle_document_wellformed (hex : Bool) (elem : Str) (helem : validName ele
 
 example : (document .xml "utf-8".toList (rleOps true "LRSH".toList (rleCreate [80, 128, 176, 300]))).toOption.map wellFormed = some true := by
   decide
+
+/-- **Float X axis — partial.**  Full statement wanted: for every list of finite floats the `<Xaxis>` entries expand
+to the X values held in memory up to the rounding of the float operations involved (`4·eps·max|x|`, count exact).
+Proved here, over exact rationals (the `F` model of `TD.C16`, float rounding not modelled) with the predicate
+`math.isclose(v, expected, rel_tol=tol)` as coded in `RLEItem.add`: the number of expanded values is exact and every
+expanded value `y` is within `tol · max(|x|, |y|)` of the value `x` that was added — with `tol = eps = 2⁻⁵²` (what the
+code passes) that is below the rounding allowance.  The rounding part is checked by the oracle on the real code. -/
+theorem rle_float_expand_within (tol : Rat) (htol : 0 ≤ tol) (xs : List Rat) :
+    List.Forall₂ (fun x y => |x - y| ≤ tol * max |x| |y|) xs (TD.C16.F.rleValues (TD.C16.F.create (iscloseQ tol) xs)) ∧
+    TD.C16.F.numValues (TD.C16.F.create (iscloseQ tol) xs) = xs.length :=
+  float_expand_within tol htol xs
+
+/-- **Why the tolerance matters** (the class of change the bound guards against): with `rel_tol = eps` a value that is
+off the grid by a relative 1e-10 starts a new run and is reproduced exactly; with `math.isclose`'s default
+`rel_tol = 1e-9` it is absorbed and the entries expand to the grid value instead of the X value that was indexed. -/
+theorem rle_float_tolerance_witness :
+    TD.C16.F.rleValues (TD.C16.F.create (iscloseQ (1 / 4503599627370496)) [100, 101, 102, 103 + 103 / 10000000000, 104])
+      = [100, 101, 102, 103 + 103 / 10000000000, 104] ∧
+    TD.C16.F.rleValues (TD.C16.F.create (iscloseQ (1 / 1000000000)) [100, 101, 102, 103 + 103 / 10000000000, 104])
+      = [100, 101, 102, 103, 104] := by
+  decide +kernel
 
 example : (rleCreate [1, 2, 3, 7, 5, 3, 1]).map (fun it => (it.datum, it.stride, it.repeat_)) = [(1, 1, 2), (7, -2, 3)] := by decide
 example : (rleCreate [80, 128, 176, 300]).map (rleAttrs true) =
